@@ -2,7 +2,7 @@
   C06 — property theorems about the model functions the driver runs
   (`Gotree.C06.removeTip`, `removeTips`, `removeTipsPinned`, `PruneFlags.names`).
 -/
-import Gotree.Lemmas.C06DataSpec
+import Gotree.Lemmas.C06Literal
 
 namespace Gotree.C06
 open Gotree Gotree.C14
@@ -12,6 +12,12 @@ def t0 : T :=
   .node ⟨"", []⟩ 0 [
     (⟨1, 1/2, NIL, [], 0⟩, .node ⟨"", []⟩ 0 [(⟨1, NIL, NIL, [], 1⟩, T.leaf "a"), (⟨2, NIL, NIL, [], 2⟩, T.leaf "b")]),
     (⟨1, NIL, NIL, [], 3⟩, T.leaf "c"), (⟨1, NIL, NIL, [], 4⟩, T.leaf "d"), (⟨1, NIL, NIL, [], 5⟩, T.leaf "e")]
+
+/-- a tree whose root is itself a tip (one neighbour): `((b,c,d,e))a;` — outside `wf` -/
+def tRootTip : T :=
+  .node ⟨"a", []⟩ 0 [(⟨1, NIL, NIL, [], 0⟩,
+    .node ⟨"", []⟩ 0 [(⟨1, NIL, NIL, [], 1⟩, T.leaf "b"), (⟨1, NIL, NIL, [], 2⟩, T.leaf "c"),
+      (⟨1, NIL, NIL, [], 3⟩, T.leaf "d"), (⟨1, NIL, NIL, [], 4⟩, T.leaf "e")])]
 
 /-- ★ One tip removed (`removeTip`, tree.go:294) from a well-formed tree, at least
     3 tips remaining: the call succeeds, the tips are the others, the branches are
@@ -180,6 +186,164 @@ theorem removeTips_data (t : T) (S : List String) (rev : Bool) (h₁ : wf t = tr
     | _ :: _ :: _, _, _ => simp
   exact ⟨t', e1, data_of_ind t t' _ hnd hk h2 hI ((lensOK_iff t).1 hl)⟩
 
+/-! ## the same theorems without any hypothesis on the root (a root that is itself a tip
+    included; hypotheses of DESIGN Appendix B: unique tips, no single-child inner node, ≥ 3 kept) -/
+
+/-- ★ `removeTips_induced` for every root shape: `wfR` = unique tips ∧ no single-child inner node.
+    When the root is a tip and is kept it stays the (tip) root; when it is removed its neighbour
+    takes its place (0cfc52b) and the result has a root with ≥ 3 neighbours (`rootAfterOK`). -/
+theorem removeTips_induced_roottip (t : T) (S : List String) (rev : Bool) (h₁ : wfR t = true)
+    (h₃ : 3 ≤ (kept t S rev).length) :
+    ∃ t', removeTips rev S t = .ok (t', sortNames t'.tipNames) ∧
+      t'.tipNames.Perm (kept t S rev) ∧
+      splitsInduced (kept t S rev) t t' ∧
+      (lensOK t = true → ∀ a b, a ∈ kept t S rev → b ∈ kept t S rev → t'.dist a b = t.dist a b) ∧
+      wfR t' = true ∧ noSingleAfterR t S rev t' = true ∧ (lensOK t = true → lensOK t' = true) := by
+  obtain ⟨hnd, hns⟩ := (wfR_iff t).1 h₁
+  obtain ⟨t', g1, hk, g3, g5, hroot, hI⟩ := removeTips_core t S rev hnd hns h₃
+  have R := ind_rootEff hI
+  refine ⟨t', ?_, hk, ⟨R.back, R.fwd⟩, fun hl a b ha hb => R.dist ((lensOK_iff t).1 hl) a b ha hb,
+    (wfR_iff t').2 ⟨g5, g3⟩, by simp [noSingleAfterR, g3, hroot],
+    fun hl => (lensOK_iff t').2 (R.lens ((lensOK_iff t).1 hl))⟩
+  simp [removeTips, g1, updateTipIndex, (hasDup_false_iff _).2 g5]
+
+/-- a tree whose root is a tip, satisfying the hypotheses, with the tip root removed or kept -/
+example : wfR tRootTip = true ∧ wf tRootTip = false ∧ 3 ≤ (kept tRootTip ["a"] false).length ∧
+    3 ≤ (kept tRootTip ["b", "zz"] false).length := by decide
+
+/-- ★ `removeTips_oracle` for every root shape, on the Spec functions of the driver's oracle. -/
+theorem removeTips_oracle_roottip (t : T) (S : List String) (rev : Bool) (h₁ : wfR t = true)
+    (h₃ : 3 ≤ (kept t S rev).length) :
+    ∃ t', removeTips rev S t = .ok (t', sortNames t'.tipNames) ∧
+      tipsOK t S rev t' = true ∧
+      (∀ a, a ∈ t'.usplitSet ↔ a ∈ restrictSplits t.tipNames (kept t S rev) t.usplitSet) ∧
+      (lensOK t = true → distOK t S rev t' = true) ∧
+      noSingleAfterR t S rev t' = true := by
+  obtain ⟨hnd, _⟩ := (wfR_iff t).1 h₁
+  obtain ⟨t', e1, hk, hind, hdist, _, hroot, _⟩ := removeTips_induced_roottip t S rev h₁ h₃
+  refine ⟨t', e1, ?_, usplitSet_restrict t t' _ hnd hk hind, fun hl => ?_, hroot⟩
+  · simp [tipsOK, sortS_congr hk]
+  · simp only [distOK, List.all_eq_true, Bool.or_eq_true, beq_iff_eq]
+    intro a ha b hb
+    exact Or.inr (hdist hl a b (mem_sortS.1 ha) (mem_sortS.1 hb))
+
+/-- ★ `removeTips_data` for every root shape. -/
+theorem removeTips_data_roottip (t : T) (S : List String) (rev : Bool) (h₁ : wfR t = true)
+    (h₃ : 3 ≤ (kept t S rev).length) (hl : lensOK t = true) :
+    ∃ t', removeTips rev S t = .ok (t', sortNames t'.tipNames) ∧
+      t'.usplits.Perm ((restrictU t (kept t S rev)).filter
+        (fun s => decide (2 ≤ lightSize (kept t S rev) s.side))) ∧
+      t'.tipLens.Perm (((restrictU t (kept t S rev)).filter
+        (fun s => decide (lightSize (kept t S rev) s.side ≤ 1))).map (fun s => (s.side, s.len))) := by
+  obtain ⟨hnd, hns⟩ := (wfR_iff t).1 h₁
+  obtain ⟨t', g1, hk, g3, g5, _, hI⟩ := removeTips_core t S rev hnd hns h₃
+  refine ⟨t', by simp [removeTips, g1, updateTipIndex, (hasDup_false_iff _).2 g5], ?_⟩
+  exact data_of_ind_gen t t' _ hnd hk (nd_all_any t' _ g5 hk) hI ((lensOK_iff t).1 hl)
+
+/-- ★ Literal form of clauses 2 and 5, exactly as the oracle evaluates them (`splitsOK`,
+    `dataOK`: equality of the sorted lists), whenever the rendering used as sort key tells the
+    sides of the result apart (`sidesInj`, a Bool the driver evaluates per case, tag `sides-inj`;
+    it can only fail for look-alike names such as a name containing ", "). -/
+theorem removeTips_oracle_literal (t : T) (S : List String) (rev : Bool) (h₁ : wfR t = true)
+    (h₃ : 3 ≤ (kept t S rev).length) :
+    ∃ t', removeTips rev S t = .ok (t', sortNames t'.tipNames) ∧
+      (sidesInj (t'.usplitsAll.map (·.side)) = true →
+        splitsOK t S rev t' = true ∧ (lensOK t = true → dataOK t S rev t' = true)) := by
+  obtain ⟨t', e1, _, hmem, _, _⟩ := removeTips_oracle_roottip t S rev h₁ h₃
+  refine ⟨t', e1, fun hinj => ?_⟩
+  have hI := (sidesInj_iff _).1 hinj
+  have sub_inj : ∀ l : List (List String), (∀ a ∈ l, a ∈ t'.usplitsAll.map (·.side)) → sidesInj l = true :=
+    fun l hl => (sidesInj_iff l).2 (fun a ha b hb e => hI a (hl a ha) b (hl b hb) e)
+  have hsetsub : ∀ a ∈ t'.usplitSet, a ∈ t'.usplitsAll.map (·.side) := by
+    intro a ha
+    unfold T.usplitSet T.usplits at ha
+    obtain ⟨u, hu, rfl⟩ := List.mem_map.1 ha
+    exact List.mem_map_of_mem (List.mem_filter.1 hu).1
+  constructor
+  · have := eq_of_same_members (usplitSet_nodup t') (restrictSplits_nodup _ _ _) (usplitSet_sorted t')
+      (restrictSplits_sorted _ _ _) hmem (sub_inj _ hsetsub)
+    simp [splitsOK, this]
+  · intro hl
+    obtain ⟨t'', e2, p1, p2⟩ := removeTips_data_roottip t S rev h₁ h₃ hl
+    rw [e1] at e2
+    cases e2
+    have q1 : t'.usplits = (restrictU t (kept t S rev)).filter
+        (fun s => decide (2 ≤ lightSize (kept t S rev) s.side)) := by
+      apply eq_of_perm_keyed (·.side) p1
+      · unfold T.usplits; exact ((usplitsAll_sorted t').sublist List.filter_sublist).imp (fun h => h)
+      · exact ((restrictU_sorted t _).sublist List.filter_sublist).imp (fun h => h)
+      · unfold T.usplits; exact (usplitsAll_sidesNodup t').sublist ((List.filter_sublist).map _)
+      · apply sub_inj
+        intro a ha
+        obtain ⟨u, hu, rfl⟩ := List.mem_map.1 ha
+        unfold T.usplits at hu
+        exact List.mem_map_of_mem (List.mem_filter.1 hu).1
+    have q2 : t'.tipLens = ((restrictU t (kept t S rev)).filter
+        (fun s => decide (lightSize (kept t S rev) s.side ≤ 1))).map (fun s => (s.side, s.len)) := by
+      apply eq_of_perm_keyed (·.1) p2
+      · unfold T.tipLens
+        rw [List.pairwise_map]
+        exact ((usplitsAll_sorted t').sublist List.filter_sublist).imp (fun h => h)
+      · rw [List.pairwise_map]
+        exact ((restrictU_sorted t _).sublist List.filter_sublist).imp (fun h => h)
+      · unfold T.tipLens
+        rw [List.map_map]
+        exact (usplitsAll_sidesNodup t').sublist ((List.filter_sublist).map _)
+      · apply sub_inj
+        intro a ha
+        unfold T.tipLens at ha
+        rw [List.map_map] at ha
+        obtain ⟨u, hu, rfl⟩ := List.mem_map.1 ha
+        exact List.mem_map_of_mem (List.mem_filter.1 hu).1
+    simp only [dataOK, Bool.and_eq_true]
+    refine ⟨?_, ?_⟩
+    · rw [q1]; exact list_usplit_beq_self _
+    · rw [q2]; exact beq_self_eq_true _
+
+/-- Pruning in two steps (the re-anchored histories of the correspondence, `gotree prune`
+    applied to its own output): the second result is the induced subtree of the ORIGINAL tree on
+    the tips finally kept — same tips, branches = restrictions of the original branches, original
+    path lengths. -/
+theorem removeTips_twice_induced (t : T) (S₁ S₂ : List String) (rev₁ rev₂ : Bool) (h₁ : wfR t = true)
+    (t₁ : T) (ix₁ : Index) (e₁ : removeTips rev₁ S₁ t = .ok (t₁, ix₁))
+    (h₃ : 3 ≤ (kept t₁ S₂ rev₂).length) (hk₁ : 3 ≤ (kept t S₁ rev₁).length) :
+    ∃ t₂, removeTips rev₂ S₂ t₁ = .ok (t₂, sortNames t₂.tipNames) ∧
+      t₂.tipNames.Perm (kept t₁ S₂ rev₂) ∧
+      (∀ a ∈ kept t₁ S₂ rev₂, a ∈ kept t S₁ rev₁) ∧
+      splitsInduced (kept t₁ S₂ rev₂) t t₂ ∧
+      (lensOK t = true → ∀ a b, a ∈ kept t₁ S₂ rev₂ → b ∈ kept t₁ S₂ rev₂ → t₂.dist a b = t.dist a b) ∧
+      wfR t₂ = true := by
+  obtain ⟨hnd, hns⟩ := (wfR_iff t).1 h₁
+  obtain ⟨t₁', g1, hk, g3, g5, _, hI⟩ := removeTips_core t S₁ rev₁ hnd hns hk₁
+  have e1' : removeTips rev₁ S₁ t = .ok (t₁', sortNames t₁'.tipNames) := by
+    simp [removeTips, g1, updateTipIndex, (hasDup_false_iff _).2 g5]
+  rw [e₁] at e1'
+  cases e1'
+  obtain ⟨t₂, f1, fk, f3, f5, _, fI⟩ := removeTips_core t₁ S₂ rev₂ g5 g3 h₃
+  have hsub : ∀ a ∈ kept t₁ S₂ rev₂, a ∈ kept t S₁ rev₁ :=
+    fun a ha => hk.mem_iff.1 (List.mem_filter.1 ha).1
+  have R := RootEff.trans hsub (ind_rootEff hI) (ind_rootEff fI)
+  refine ⟨t₂, ?_, fk, hsub, ⟨R.back, R.fwd⟩, fun hl a b ha hb => R.dist ((lensOK_iff t).1 hl) a b ha hb,
+    (wfR_iff t₂).2 ⟨f5, f3⟩⟩
+  simp [removeTips, f1, updateTipIndex, (hasDup_false_iff _).2 f5]
+
+/-- ★ Clauses 2 and 5 literally as the oracle evaluates them, for every tree whose tip names
+    are non-empty and free of ',' (`goodNames`, a Bool on the INPUT the driver evaluates, tag
+    `good-names`): `toString` is injective on the sides of such trees (`toString_sides_inj`). -/
+theorem removeTips_oracle_literal_names (t : T) (S : List String) (rev : Bool) (h₁ : wfR t = true)
+    (h₃ : 3 ≤ (kept t S rev).length) (hn : goodNames t = true) :
+    ∃ t', removeTips rev S t = .ok (t', sortNames t'.tipNames) ∧
+      splitsOK t S rev t' = true ∧ (lensOK t = true → dataOK t S rev t' = true) := by
+  obtain ⟨t', e1, hlit⟩ := removeTips_oracle_literal t S rev h₁ h₃
+  obtain ⟨t'', e2, hk, _⟩ := removeTips_induced_roottip t S rev h₁ h₃
+  rw [e1] at e2
+  cases e2
+  have hg : ∀ x ∈ t'.tipNames, goodName x := fun x hx =>
+    (goodNames_iff t).1 hn x (List.mem_filter.1 (hk.mem_iff.1 hx)).1
+  exact ⟨t', e1, hlit (sidesInj_of_goodNames t' hg)⟩
+
+example : goodNames t0 = true ∧ goodNames tRootTip = true := by decide
+
 example : wf t0 = true ∧ 3 ≤ (kept t0 ["b", "nosuch"] false).length ∧ lensOK t0 = true := by decide
 
 /-- Names that are no tip of the tree are ignored. -/
@@ -247,12 +411,6 @@ theorem removeTips_single_root_witness :
      | .ok t' => t'.tipNames.length == 4 && t'.tipNames.contains "" && t'.kids.length == 1
      | .error _ => false) = true := by decide
 
-/-- a tree whose root is itself a tip (one neighbour): `((b,c,d,e))a;` — outside `wf` -/
-def tRootTip : T :=
-  .node ⟨"a", []⟩ 0 [(⟨1, NIL, NIL, [], 0⟩,
-    .node ⟨"", []⟩ 0 [(⟨1, NIL, NIL, [], 1⟩, T.leaf "b"), (⟨1, NIL, NIL, [], 2⟩, T.leaf "c"),
-      (⟨1, NIL, NIL, [], 3⟩, T.leaf "d"), (⟨1, NIL, NIL, [], 4⟩, T.leaf "e")])]
-
 /-- A tip that is the root can be removed (0cfc52b): its neighbour takes its place and is
     treated like any node that lost a neighbour; before that commit the call failed
     (`removeTipPinnedRootTip`).  Keeping the tip root works in both. -/
@@ -266,6 +424,27 @@ theorem removeTip_root_tip_pinned_fails :
     (match removeLoop (workList tRootTip ["b"] false) tRootTip with
      | .ok t' => t'.tipNames == ["a", "c", "d", "e"]
      | .error _ => false) = true := by decide
+
+/-- What the code does with a single-child node `S` just below the root (inputs outside the
+    property: "pruning is only required to cope with trees free of single-child inner nodes"):
+    when the root's other child, the tip `x`, is removed, case 1b makes `S` the root as it is;
+    `S` has one neighbour, so it is a tip for Go and its (usually empty) name joins the tip set.
+    Whichever side the tip hangs on.  The check keeps such inputs tie-only. -/
+theorem removeTip_single_below_root (x : String) (d : NodeD) (p q : Nat) (e0 e1 : EdgeD) (S : T)
+    (hS : S.kids.length = 1) (hx : x ∉ S.leaves) :
+    removeTip x (.node d p [(e0, .node ⟨x, []⟩ q []), (e1, S)]) = .ok (.node S.d 0 S.kids) ∧
+    removeTip x (.node d p [(e1, S), (e0, .node ⟨x, []⟩ q [])]) = .ok (.node S.d 0 S.kids) ∧
+    (T.node S.d 0 S.kids).tipNames = S.name :: S.leaves := by
+  have hnf := rmNode_notFound_of_not_mem x S hx
+  obtain ⟨ds, ps, ks⟩ := S
+  simp only [T.kids_node] at hS
+  match ks, hS, hnf with
+  | [(e, c)], _, hnf =>
+    refine ⟨?_, ?_, ?_⟩
+    · simp [removeTip, rmKids, rmNode]
+    · simp only [removeTip, rmKids, hnf]
+      simp [rmNode]
+    · simp [T.tipNames, T.name, T.leaves, leavesL]
 
 /-- merged branch: length = sum (absent counts 0; absent only if both are) -/
 theorem fuse_length_sum (e1 e2 : EdgeD) (b : Bool) (h1 : lenOKe e1) (h2 : lenOKe e2) :
@@ -318,6 +497,58 @@ theorem prune_comp_keeps_common (ref comp : T) :
   apply List.filter_congr
   intro n hn
   by_cases hc : n ∈ comp.tipNames <;> simp [specificTips, nodeTipNames, hn, hc]
+
+/-- `gotree prune` on a whole input (several trees, any combination of -f / -c / --random /
+    arguments / -r; `-o` or stdout only changes where the lines go): when every input tree
+    satisfies the hypotheses, the command does not fail, writes exactly one tree per input tree,
+    in order, and each is the induced subtree of its input for the names the flags select FOR THAT
+    TREE (`-c`: the tips specific to that tree). -/
+theorem pruneAll_induced (f : PruneFlags) : ∀ (refs : List T) (samples : List (List String)),
+    AllGood f refs samples →
+    (pruneAll f refs samples).2 = none ∧ (pruneAll f refs samples).1.length = refs.length ∧
+      OutputsInduced f refs samples (pruneAll f refs samples).1
+  | [], _, _ => by simp [pruneAll, OutputsInduced]
+  | ref :: rest, samples, h => by
+    obtain ⟨h1, h3, hr⟩ := h
+    obtain ⟨t', e, hk, hs, _, hw, _⟩ := removeTips_induced_roottip ref (f.names ref (samples.headD [])) f.revert h1 h3
+    obtain ⟨g1, g2, g3⟩ := pruneAll_induced f rest samples.tail hr
+    have e' : prune f ref (samples.headD []) = .ok (t', sortNames t'.tipNames) := e
+    simp only [pruneAll, e']
+    exact ⟨g1, by simp [g2], hk, hs, hw, g3⟩
+
+/-- the first tree that cannot be pruned stops the command: what was written before stays,
+    nothing is written for that tree nor for the following ones -/
+theorem pruneAll_stops (f : PruneFlags) (ref : T) (rest : List T) (samples : List (List String)) (e : Err)
+    (h : prune f ref (samples.headD []) = .error e) :
+    pruneAll f (ref :: rest) samples = ([], some e) := by
+  simp only [pruneAll, h]
+
+theorem pruneAll_continues (f : PruneFlags) (ref : T) (rest : List T) (samples : List (List String))
+    (t' : T) (ix : Index) (h : prune f ref (samples.headD []) = .ok (t', ix)) :
+    pruneAll f (ref :: rest) samples =
+      (t' :: (pruneAll f rest samples.tail).1, (pruneAll f rest samples.tail).2) := by
+  simp only [pruneAll, h]
+
+/-- `--random n`: whatever names were sampled (distinct tips of the tree), exactly that many
+    tips go, or stay with `-r` -/
+theorem prune_random_count (t : T) (sampled : List String) (hnd : t.tipNames.Nodup)
+    (hs : sampled.Nodup) (hsub : ∀ n ∈ sampled, n ∈ t.tipNames) :
+    (kept t sampled true).length = sampled.length ∧
+      (kept t sampled false).length = t.tipNames.length - sampled.length := by
+  have h1 : (kept t sampled true).length = sampled.length := by
+    apply List.Perm.length_eq
+    apply perm_of_nodup_mem (hnd.filter _) hs
+    intro x
+    simp only [kept, List.mem_filter, beq_true, List.contains_eq_mem, decide_eq_true_eq]
+    exact ⟨fun h => h.2, fun h => ⟨hsub x h, h⟩⟩
+  refine ⟨h1, ?_⟩
+  have c := filter_length_compl t.tipNames sampled.contains
+  have e1 : t.tipNames.filter sampled.contains = kept t sampled true := by
+    unfold kept; apply List.filter_congr; intro n _; simp
+  have e2 : (t.tipNames.filter fun n => !sampled.contains n) = kept t sampled false := by
+    unfold kept; apply List.filter_congr; intro n _; simp
+  rw [e1, e2] at c
+  omega
 
 /-- `specificTips ref comp` are exactly the tips of `ref` that `comp` does not have. -/
 theorem specificTips_mem (ref comp : T) (n : String) :
